@@ -202,6 +202,7 @@ func VerifyFunction(prog *ssa.Program, db *ContractDB, fn *ssa.Function, fc *Fun
 	ob := fv.addOb(st, "cover", "cover:pre", TrueT, "precondition satisfiable", token.NoPos)
 	ob.Cover = true
 	fv.pre = st.clone()
+	fv.accumLemmas(fv.pre)
 	enc.frameHook = fv.loopFrameAxiom
 	fv.findLoops()
 	if len(fv.errs) > 0 {
